@@ -10,12 +10,14 @@ ops (all integers decimal; times = ns since Go's zero time, see Model/Epochs.lea
                *ErrorOutOfGas pointer — none of which IsOutOfGasError recognises) | go gg gv (panic with
                ErrorOutOfGas{} value, a real gas-meter out-of-gas, ErrorGasOverflow{} value)
   dump                                        current committed state
+  exportimport <ctxTimeNs> <ctxHeight>        ExportGenesis; store wiped; InitGenesis under that context -> the `dump` line | panic
 
 observation of `block` / `dump`:
   <ok|panic> T <id>,<start>,<dur>,<epoch>,<curStart>,<started>,<height>;… S <e|s><n>,… C <id>.<e|s>.<n>.<sub>,… W <i>{k=v,…}|…
   (T,W: the state inside the block's context when BeginBlocker returned/panicked; S: keeper signals in order;
    C: hook invocations in order) -/
 import OsmoVerif.Model.Epochs
+import OsmoVerif.Model.Det
 namespace OsmoVerif.Epochs
 
 def parseOutcome : String → Option Outcome
@@ -108,6 +110,15 @@ def stepEpochs (st : State) (op : String) (args : List String) : State × String
       (stepBlock st b, showObs o.panicked o.timers o.subs o.signals o.calls)
     | _, _, _ => (st, "bad-op")
   | "dump", [] => (st, showObs false st.timers st.subs [] [])
+  -- C19: x/epochs ExportGenesis -> store wiped -> InitGenesis under a context with that block time / height
+  -- (`Det.epochsImport ctxT ctxH subs (Det.epochsExport s)`: AddEpochInfo per timer); `panic` = AddEpochInfo returned an error
+  | "exportimport", [ctxT, ctxH] =>
+    match ctxT.toInt?, ctxH.toInt? with
+    | some ctxT, some ctxH =>
+      match Det.epochsImport ctxT ctxH st.subs (Det.epochsExport st) with
+      | some st' => (st', showObs false st'.timers st'.subs [] [])
+      | none => (st, "panic")
+    | _, _ => (st, "bad-op")
   | _, _ => (st, "bad-op")
 
 end OsmoVerif.Epochs
